@@ -285,9 +285,16 @@ Case gen_c13(uint64_t seed, int tier)
       ns %= 1000000000;
       t += r.pick<int64_t>({0, 0, 1, 1, 2, 59, 60});
     }
-    else if (k < 50)
+    else if (k < 46)
     {
       // repeat
+    }
+    else if (k < 58)
+    {
+      // another instant within the same second, earlier or later (a clock stepped back by less than a second, statements of
+      // two threads written in queue order): fractions with few significant digits, so that every digit position matters
+      ns = r.chance(1, 2) ? static_cast<int64_t>(r.below(1000000000))
+                          : r.pick<int64_t>({0, 1, 7, 42, 999, 1000, 5000, 999999, 1000000, 5000000, 70000000, 500000000, 999999999});
     }
     else if (k < 80)
     {
